@@ -62,7 +62,7 @@ struct AssertInfo {
 };
 
 struct TrapState {
-    sigjmp_buf* jb{nullptr};           // innermost guard; null = not guarded
+    sigjmp_buf* volatile jb{nullptr};  // innermost guard; null = not guarded (volatile: read from signal handlers)
     AssertInfo last_assert{};          // filled by the contract handler
     char const* last_exception{nullptr};
     int last_signal{0};
@@ -171,7 +171,9 @@ template <typename F>
     int const rc              = sigsetjmp(jb, 0);
     if (rc == 0) {
         s.jb = &jb;
+        asm volatile("" ::: "memory"); // the guarded body may be fully inlined: keep the bookkeeping stores in order
         f();
+        asm volatile("" ::: "memory");
         s.jb = prev;
         return Trap::none;
     }
